@@ -289,3 +289,17 @@ def hmc_momentum_is_reversed_with_every_fold_of_the_trajectory(h, d, n, mass):
     trajectory that does not retrace itself.  Same execution of the real bounded_leapfrog as C07's reversibility unit"""
     from harness import c07
     c07.leapfrog_is_reversible(h, d, n, mass, True)
+
+
+@unit("C04", quick=[dict(cls="pca"), dict(cls="hmc"), dict(cls="ensemble")], max_paths=4000, cost=5)
+def limits_given_at_construction_survive_save_and_load(h, cls):
+    """'while a limit is in force (bounds given at construction)': a sampler reloaded from its save file is still the
+    sampler with those limits -- same bounds, and the proposal / trajectory processing that enforces them selected.  Same
+    execution of the real save / load code as C09's units (bounded variants), asserted here for C04"""
+    from harness import c09
+    if cls == "pca":
+        c09.pca_save_load_continue(h, 2, True, 2, False)
+    elif cls == "hmc":
+        c09.hmc_save_load_continue(h, 2, "vector", True)
+    else:
+        c09.ensemble_save_load_continue(h, 1, 2, True, False)
